@@ -185,6 +185,57 @@ async def history_registries(ctx, workdir: str, version: str | None, length: int
     await stepper.close()
 
 
+async def retry_after_failed_save(ctx, nodes: dict, workdir: str, index: int) -> None:
+    """One Persistence object: a save fails (directory temporarily missing), the SAME registry is saved again once the
+    directory is back; the file must then hold the registry (also when an older file was there before)."""
+    from aiomysensors.exceptions import PersistenceWriteError
+    from aiomysensors.model.node import Node
+    from aiomysensors.persistence import Persistence
+
+    sub = os.path.join(workdir, f"sub{index}")
+    hidden = sub + ".away"
+    shutil.rmtree(sub, ignore_errors=True)
+    shutil.rmtree(hidden, ignore_errors=True)
+    os.makedirs(sub)
+    path = os.path.join(sub, "reg.json")
+    case = {"origin": {"kind": "retry-after-failed-save", "index": index}, "registry": snap(nodes)}
+    persistence = Persistence(nodes, path)
+    variant = index % 3
+    if variant == 1:  # an older file exists
+        await Persistence({250: Node(250, 17, "1.0")}, path).save()
+    if variant == 2:  # a first successful save of other content through the same object
+        await persistence.save()
+        nodes[251] = Node(251, 17, "2.0", sketch_name="added later")
+    os.rename(sub, hidden)
+    ctx.clause("failed-save-reported")
+    try:
+        await persistence.save()
+    except PersistenceWriteError:
+        pass
+    except Exception as exc:  # noqa: BLE001
+        ctx.violation("save-failure-wrong-error", f"save into a missing directory raised {type(exc).__name__}", case)
+    else:
+        ctx.violation("save-failure-not-reported", "save into a missing directory returned normally", case)
+    os.rename(hidden, sub)
+    try:
+        await persistence.save()
+    except Exception as exc:  # noqa: BLE001
+        ctx.violation("save-raises", f"retry of the save raised {type(exc).__name__}: {exc!s:.80}", case)
+        return
+    loaded: dict = {}
+    ctx.clause("retry-after-failed-save")
+    try:
+        await Persistence(loaded, path).load()
+    except Exception as exc:  # noqa: BLE001
+        ctx.violation("saved-file-rejected-by-load", f"after the retried save load raised {type(exc).__name__}: {exc!s:.80}", case)
+        return
+    diff = first_difference(typed(snap(nodes)), typed(snap(loaded)))
+    if diff or not os.path.exists(path):
+        ctx.violation("retried-save-did-not-write", f"after a failed save and a successful retry of the same registry the file "
+                                                    f"does not hold it (differs at {diff})", case)
+    ctx.case(("retry", index, json.dumps(snap(nodes), sort_keys=True, default=str)), sample=None)
+
+
 def constructed(rng):
     from aiomysensors.model.node import Child, Node
 
@@ -233,6 +284,8 @@ def run(ctx) -> None:
                 arun(history_registries(ctx, workdir, [None, *VERSIONS][i % 6], rng.choice([10, 50, 150]), i))
             for i in range(ctx.pick(600, 60000) // ctx.shard_count):
                 arun(roundtrip(ctx, constructed(rng), workdir, {"kind": "constructed", "index": i}))
+            for i in range(ctx.pick(60, 1500) // ctx.shard_count + 3):
+                arun(retry_after_failed_save(ctx, constructed(rng), workdir, i))
         reach.into(ctx)
     finally:
         shutil.rmtree(workdir, ignore_errors=True)
